@@ -88,7 +88,7 @@ def main_c16(pid, tier, seed, replay_path=None):
         path = cl.write_nofail_replay(pid, "server/model build", str(e1 or e2))
         print("VIOLATION property=%s replay=%s no-failing-input-found" % (pid, path))
         return 1
-    n, nq = (24, 14) if tier == "quick" else (400, 22)
+    n, nq = (56, 16) if tier == "quick" else (600, 22)
     out = os.path.join(build.WORK, "scratch", "c16-%d-%s" % (seed, tier))
     recs, extras = l3batch.l3_batch(seed, n, nq, dr, out, binary=binary)
     fails, diffs, nontriv, dead = [], [], set(), []
